@@ -61,6 +61,10 @@ pub struct Case {
     /// target i) have changed; the groups are the pruned ones `analyze` then reports
     #[serde(default)]
     pub changed_mask: u32,
+    /// two of every three targets list the same `uses` entry that lies in no target (a shared
+    /// schema directory): no dependency between them follows from that
+    #[serde(default)]
+    pub shared_outside_uses: bool,
 }
 
 pub fn strategy(max_n: usize) -> impl Strategy<Value = Case> {
@@ -118,6 +122,7 @@ pub fn strategy(max_n: usize) -> impl Strategy<Value = Case> {
                 named_deps: gp % 4 == 1,
                 // a quarter of the cases: roughly two thirds of the targets changed, scattered
                 changed_mask: if gp % 4 == 2 { history_mask | history_mask.rotate_left(11) | 1 } else { 0 },
+                shared_outside_uses: gp % 3 == 0,
                 cpus: if n <= 16 && !listener {
                     match gp % 7 {
                         3 => 1,
@@ -133,6 +138,13 @@ pub fn strategy(max_n: usize) -> impl Strategy<Value = Case> {
 
 fn attempt(case: &Case, w: usize, timeout_ms: u64) -> Result<(bool, CaseInfo, Value), CheckError> {
     let mut cfg_owned = case.config.clone();
+    if case.shared_outside_uses {
+        for (i, t) in cfg_owned.targets.iter_mut().enumerate() {
+            if i % 3 != 2 {
+                t.uses.push("shared/schema".into());
+            }
+        }
+    }
     if case.shared_exe {
         for t in cfg_owned.targets.iter_mut() {
             for k in 0..case.ncmd {
@@ -304,6 +316,7 @@ fn attempt(case: &Case, w: usize, timeout_ms: u64) -> Result<(bool, CaseInfo, Va
         .class_if(case.quick_members, "a-third-of-the-members-exit-at-once")
         .class_if(case.named_deps, "members-named-with--t-and---deps")
         .class_if(case.changed_mask != 0, "checkpoint-and-scattered-changes(pruned-groups)")
+        .class_if(case.shared_outside_uses, "members-share-a-uses-path-outside-every-target")
         .class_if(case.early_output > 0, "members-print-more-than-a-pipe-buffer-first")
         .class_if(undefined.is_some(), "one-member-does-not-define-the-command")
         .class_if(case.big_args && !case.shared_exe, "one-member-gets-100KiB-of-arguments")
